@@ -483,6 +483,70 @@ CHECKS = {
 NOT_YET = {}
 
 
+# what the strengthening rounds (DESIGN.md section 12) added to each check
+ADDED = {
+    "C01": "Added after seeded changes: arrays with several NULL entries "
+           "(DOM-append model of the array encoder), object-less embedded "
+           "values; two more wrong variants refuted.",
+    "C02": "Added: every PARAMVALUE child shape of the response element "
+           "(name, position, child kind) for every operation family, "
+           "huge-magnitude numeric lexeme classes at every value site; three "
+           "more leak variants refuted.",
+    "C03": "Added: empty / gapped namespaces and all path shapes (host "
+           "without namespace ...) x ignore_* arguments in every role "
+           "(22 461 request cases, 793 object cases); three more wrong "
+           "variants refuted.",
+    "C04": "Added: WireMethod.tla - InvokeMethod marshalling inside histories "
+           "with kept argument objects and default-namespace switches, "
+           "inferred PARAMTYPE per Python value class (two wrong variants "
+           "refuted, TLC-enumerated histories replayed); method parameters "
+           "of every CIM type in three passing styles; instances with every "
+           "property type and NULL-rich arrays; PropertyList container "
+           "shapes; each path gets its own copy of the arguments.",
+    "C05": "Added: special-fold (non-ASCII) name classes, unnamed (None) "
+           "keys, empty arrays, None-valued items; a history model (hash, "
+           "then any NocaseDict mutator or in-place child change, then "
+           "compare with a fresh equal object) with hash-cache variants "
+           "refuted; 1048 TLC-emitted histories replayed.",
+    "C07": "Added: IPv6-literal hosts with hex letters, exponent sign "
+           "classes, and a parse/mutate/parse history model (results are "
+           "independent heap objects, parsing is a function of the text) "
+           "with reference-cache variants refuted; 12 wrong variants in all.",
+    "C08": "Added: class default (none/NULL/scalar/array) x instance value "
+           "(absent/NULL/value) universe for all 15 types (MofTextInst), "
+           "four wrong variants refuted.",
+    "C09": "Added: declare-then-use, nested-compile-then-error, "
+           "failed-class-then-dependent-production and path-spelling "
+           "session parts; per-compiler caches; five more wrong shapes "
+           "refuted.",
+    "C10": "Added: falsy key values, wrong-typed NULL properties.",
+    "C11": "Added: lists of schema pragma files, I/O errors of includes, "
+           "id-keyed cross-namespace associations colliding in one "
+           "namespace only, namespace provider; five wrong pipelines "
+           "refuted.",
+    "C14": "Added: small server default MaxObjectCount in every third "
+           "history (opens without MaxObjectCount leave a rest), "
+           "LegacyTrimRaw refuted.",
+    "C15": "Added: argument shapes (namespace through CIMClassName / "
+           "namespace= / default, host-bearing source paths), several "
+           "iterators alive at once on one connection.",
+    "C16": "Added: bounded join modelled as a scheduling choice, a request "
+           "in flight across stop() on real sockets, callbacks registered "
+           "as functions / bound methods / twice.",
+    "C17": "Added: bounded indication queue with a gated callback "
+           "(queue-full episodes from TLC scripts), second-response "
+           "variant refuted.",
+    "C18": "Added: with-block left through an exception, finding "
+           "signatures computed for the event's own state.",
+    "C19": "Added: InvokeMethod argument shapes (every value type, CIM "
+           "parameter names used inside pywbem), locally failing "
+           "operations, format-hostile response texts.",
+    "C20": "Added: every placement of '..' next to open ranges, empty "
+           "Values strings, and a creation-history model on a shared "
+           "class object (shared-list variant refuted).",
+}
+
+
 def main():
     props = [json.loads(l) for l in open(os.path.join(VERIF, "properties.jsonl"))]
     checks = []
@@ -491,6 +555,8 @@ def main():
         pid = p["id"]
         if pid in CHECKS:
             tech, text, note, ref, engine = CHECKS[pid]
+            if pid in ADDED:
+                text = text + " " + ADDED[pid]
             checks.append({
                 "property_id": pid,
                 "quick_cmd": "bin/check %s --tier quick" % pid,
